@@ -352,8 +352,38 @@ macro_rules! impl_tryfrom_integer {
             type Error = Error;
 
             fn try_from(value: Token) -> Result<Self, Self::Error> {
+                // Parse a NR1 numeric (optionally signed digits) with overflow checks.
+                // Anything else is reported as an invalid digit, like lexical-core does.
+                fn parse_nr1(s: &[u8]) -> core::result::Result<$from, lexical_core::Error> {
+                    let (negative, digits) = match s.split_first() {
+                        Some((b'-', digits)) => (true, digits),
+                        Some((b'+', digits)) => (false, digits),
+                        _ => (false, s),
+                    };
+                    if digits.is_empty() {
+                        return Err(lexical_core::Error::Empty(0));
+                    }
+                    if let Some(i) = digits.iter().position(|c| !c.is_ascii_digit()) {
+                        return Err(lexical_core::Error::InvalidDigit(i));
+                    }
+                    let mut acc: $from = 0;
+                    for (i, c) in digits.iter().enumerate() {
+                        let digit = (c - b'0') as $from;
+                        acc = if negative {
+                            acc.checked_mul(10)
+                                .and_then(|acc| acc.checked_sub(digit))
+                                .ok_or(lexical_core::Error::Underflow(i))?
+                        } else {
+                            acc.checked_mul(10)
+                                .and_then(|acc| acc.checked_add(digit))
+                                .ok_or(lexical_core::Error::Overflow(i))?
+                        };
+                    }
+                    Ok(acc)
+                }
+
                 match value {
-                    Token::DecimalNumericProgramData(value) => lexical_core::parse::<$from>(value)
+                    Token::DecimalNumericProgramData(value) => parse_nr1(value)
                         .or_else(|e| {
                             if matches!(e, lexical_core::Error::InvalidDigit(_)) {
                                 let value = lexical_core::parse::<$intermediate>(value)?;
